@@ -35,3 +35,27 @@ package types
 //@   flag trusted frame_of_param=fn
 //@   param fn as procvisitor
 //@   assigns nothing
+
+// C13 / C09: a new replica starts from a fresh state object: pending (or disabled / foreground), no restarts,
+// exit code 0, not running.
+//@ func NewProcessState
+//@   requires proc != nil
+//@   ensures result != nil && fresh(result)
+//@   ensures identity: result.Name == proc.ReplicaName && result.Namespace == proc.Namespace
+//@   ensures initial: result.Status == ite(proc.Disabled, "Disabled", ite(proc.IsForeground, "Foreground", "Pending")) && result.Restarts == 0 && result.ExitCode == 0 && !result.IsRunning && result.Pid == 0 && result.Health == "-"
+//@   assigns nothing
+
+// C13: the bare name for a single replica
+//@ func (p *ProcessConfig) CalculateReplicaName
+//@   ensures single: p.Replicas <= 1 ==> result == p.Name
+//@   ensures assumed-function: result == replicaNameOf(p.Name, p.Replicas, p.ReplicaNum)
+//@   assigns nothing
+
+//@ func (p *ProcessConfig) AssignProcessExecutableAndArgs
+//@   flag nosafety=index,slice
+//@   assigns p.Executable, p.Args, p.Entrypoint
+// the replica name is a function of the process name, the replica count and the replica number
+//@ pure replicaNameOf(string, int, int) string
+// distinct replica numbers give distinct names (formatting with a fixed width; checked by the bounded stand-in of C13
+// for every replica count up to the stated bound, assumed beyond)
+//@ axiom replica_names_distinct: forall s string, t string, c int, n int, m int {replicaNameOf(s, c, n), replicaNameOf(t, c, m)} :: c > 1 && 0 <= n && n < c && 0 <= m && m < c && n != m ==> replicaNameOf(s, c, n) != replicaNameOf(t, c, m)
